@@ -237,6 +237,51 @@ def run(ctx):
                         kappa = np.linalg.cond(A) ** (2 if name in ('cgnr', 'cgne') else 1)
                         if _nn(np.linalg.norm(xs - xk)) > 1e-5 * np.linalg.cond(A) * (1 + np.linalg.norm(xs)):
                             ctx.fail(name + '/not-solved-in-n-steps', '|x_n - x*| = %.3g' % np.linalg.norm(xs - xk), case)
+    # ---------- GMRES family with restarts and with a callback: after every restart cycle of m inner steps the iterate is
+    # the minimiser over (previous iterate) + (Krylov space of that cycle); supplying a callback changes nothing
+    rg = ctx.sub('restart')
+    for t in range(10 if not ctx.thorough else 60):
+        n = rg.choice([4, 6, 8])
+        cplx = t % 4 == 3
+        Ag, b = systems(rg, n, cplx, False)
+        if np.linalg.cond(Ag) > 1e2:
+            continue
+        x0 = np.array([rg.uniform(-1, 1) for _ in range(n)]).astype(b.dtype)
+        Md = np.diag([rg.choice([0.5, 1.0, 2.0, 0.25]) for _ in range(n)]) if t % 2 else None
+        Mx = Md if Md is not None else np.eye(n)
+        m = rg.choice([2, 3, 4] if n >= 6 else [2, 3])
+        for name in ('gmres_mgs', 'gmres_householder', 'fgmres'):
+            fn = getattr(krylov, name)
+            case = dict(solver=name, n=n, complex=cplx, restart=m, M=None if Md is None else np.diag(Md).tolist(),
+                        A=[[complex(v) for v in r] for r in Ag], b=[complex(v) for v in b], x0=[complex(v) for v in x0])
+            ctx.mark(case)
+            xref = x0.copy()
+            for cyc in (1, 2, 3):
+                r_ = b - Ag @ xref
+                if name == 'fgmres':
+                    Qb = np.linalg.qr(Mx @ krylov_basis(Ag @ Mx, r_, m))[0]
+                    xref = best_in(xref, Qb, Ag, b)
+                else:
+                    Qb = krylov_basis(Mx @ Ag, Mx @ r_, m)
+                    xref = best_in(xref, Qb, Mx @ Ag, Mx @ b)
+                for with_cb in (False, True):
+                    seen = []
+                    try:
+                        with warnings.catch_warnings():
+                            warnings.simplefilter('ignore')
+                            xk, _ = fn(Ag, b, x0=x0.copy(), tol=1e-300, restart=m, maxiter=cyc, M=Md,
+                                       **(dict(callback=lambda v: seen.append(1)) if with_cb else {}))
+                    except Exception as e:   # noqa
+                        ctx.fail(name + '/restarted/raises', repr(e), dict(case, cycles=cyc, callback=with_cb))
+                        continue
+                    ctx.case((name, 'restart', t, cyc, with_cb), True)
+                    ctx.count('oracle:%s-restarted%s' % (name, '-callback' if with_cb else ''))
+                    nrm = (lambda v: np.linalg.norm(b - Ag @ v)) if name == 'fgmres' else (lambda v: np.linalg.norm(Mx @ (b - Ag @ v)))
+                    val, best = nrm(xk), nrm(xref)
+                    if not np.all(np.isfinite(xk)) or val > best + 1e-8 * np.linalg.cond(Ag) * max(nrm(x0), np.linalg.norm(b)):
+                        ctx.fail(name + '/restarted/not-optimal', 'after %d restart cycles of %d steps%s: norm %.10g, cycle-wise minimiser %.10g'
+                                 % (cyc, m, ' (callback supplied)' if with_cb else '', val, best), dict(case, cycles=cyc, callback=with_cb))
+                        break
     # ---------- small dyadic systems for the six recurrence models (cheap exact rationals, many systems)
     rq = ctx.sub('dyadic')
     for t in range(20 if not ctx.thorough else 120):
